@@ -17,7 +17,7 @@ From Coq Require Import List Arith ZArith NArith Lia Bool Permutation.
 From BPT Require Import Common.Base Common.AMap Rust.Arena Rust.ArenaSpec Rust.ArenaProofs
   Rust.Tree Rust.Heap Rust.Readers Rust.Run Rust.InvDefs Rust.Repr Rust.Lib Rust.Bridge
   Rust.TreeFactsI Rust.ValidDefs Rust.Damage Rust.ValidSound Rust.ValidAccept Rust.ChainExact
-  Extra.RustExtra Extra.RustExtra2.
+  Rust.Walk Rust.Spec Rust.ReachDefs Props.Reachable Extra.RustExtra Extra.RustExtra2.
 Import ListNotations.
 Set Implicit Arguments.
 
@@ -1246,4 +1246,372 @@ Proof.
   split; [exact H1|]. split; [exact H2|]. split; [exact H2|]. split; [apply H3|apply H4].
 Qed.
 
+(* ------------------------------------------------------------------ *)
+(* 8. orphans: an allocated node that the tree does not reference.  check_invariants does
+   not see it (it only walks the tree); the detailed validator counts the arenas. *)
+
+Lemma hdep_mono : forall (h : heap) n r, hdep h n r -> forall m, n <= m -> hdep h m r.
+Proof.
+  intros h n r H. induction H as [n id|n id Hg|n id x Hg Hk IH]; intros m Hm.
+  - apply hd_leaf.
+  - apply hd_none. exact Hg.
+  - destruct m as [|m]; [lia|]. apply hd_branch with (x := x); [exact Hg|].
+    intros c Hc. apply IH; [exact Hc|lia].
+Qed.
+
+Lemma DO_concat_res_total : forall (A : Type) (l : list (res (list A))),
+  (forall r, In r l -> exists x, r = Ok x) -> exists x, concat_res l = Ok x.
+Proof.
+  intros A l H. unfold concat_res. generalize (@nil A).
+  induction l as [|r l IH]; intros acc; cbn [fold_left]; [eexists; reflexivity|].
+  destruct (H r (or_introl eq_refl)) as (x & ->). cbn [bind].
+  apply IH. intros r' Hr'. apply H. right. exact Hr'.
+Qed.
+
+Lemma h_leaf_ids_total : forall (h : heap) n r, hdep h n r -> exists l, h_leaf_ids (S n) h r = Ok l.
+Proof.
+  intros h n r H. induction H as [n id|n id Hg|n id x Hg Hk IH].
+  - eexists; reflexivity.
+  - cbn [h_leaf_ids]. rewrite Hg. eexists; reflexivity.
+  - remember (S n) as n1. cbn [h_leaf_ids]. rewrite Hg. subst n1.
+    apply DO_concat_res_total. intros r Hr. apply in_map_iff in Hr. destruct Hr as (c & <- & Hc).
+    apply IH. exact Hc.
+Qed.
+
+Lemma h_branch_ids_total : forall (h : heap) n r, hdep h n r -> exists l, h_branch_ids (S n) h r = Ok l.
+Proof.
+  intros h n r H. induction H as [n id|n id Hg|n id x Hg Hk IH].
+  - eexists; reflexivity.
+  - cbn [h_branch_ids]. rewrite Hg. eexists; reflexivity.
+  - remember (S n) as n1. cbn [h_branch_ids]. rewrite Hg. subst n1.
+    destruct (@DO_concat_res_total _ (map (h_branch_ids (S n) h) (bkids x))) as (l & ->).
+    + intros r Hr. apply in_map_iff in Hr. destruct Hr as (c & <- & Hc). apply IH. exact Hc.
+    + cbn [bind]. eexists; reflexivity.
+Qed.
+
+(* walks that only visit reachable nodes agree on heaps that agree on reachable branches *)
+Lemma h_leaf_ids_agree : forall (h h' : heap),
+  (forall id ir lo hi, hreach h (RBranch id) ir lo hi -> get_branch h' id = get_branch h id) ->
+  forall f r ir lo hi, hreach h r ir lo hi -> h_leaf_ids f h' r = h_leaf_ids f h r.
+Proof.
+  intros h h' Ha. induction f as [|f IH]; intros r ir lo hi Hr; [reflexivity|].
+  cbn [h_leaf_ids]. destruct r as [id|id]; [reflexivity|].
+  rewrite (Ha _ _ _ _ Hr). destruct (get_branch h id) as [x|] eqn:Eg; [|reflexivity].
+  f_equal. apply map_ext_in. intros c Hc. apply In_nth_error in Hc. destruct Hc as (i & Hi).
+  eapply IH. eapply hreach_child; eauto.
+Qed.
+
+Lemma h_branch_ids_agree : forall (h h' : heap),
+  (forall id ir lo hi, hreach h (RBranch id) ir lo hi -> get_branch h' id = get_branch h id) ->
+  forall f r ir lo hi, hreach h r ir lo hi -> h_branch_ids f h' r = h_branch_ids f h r.
+Proof.
+  intros h h' Ha. induction f as [|f IH]; intros r ir lo hi Hr; [reflexivity|].
+  cbn [h_branch_ids]. destruct r as [id|id]; [reflexivity|].
+  rewrite (Ha _ _ _ _ Hr). destruct (get_branch h id) as [x|] eqn:Eg; [|reflexivity].
+  f_equal. f_equal. apply map_ext_in. intros c Hc. apply In_nth_error in Hc. destruct Hc as (i & Hi).
+  eapply IH. eapply hreach_child; eauto.
+Qed.
+
+Lemma valid_arena_inv : forall b : bstate V, Inv b -> rooms b ->
+  ArenaInv (hleaves (flatten b)) /\ small (hleaves (flatten b)) /\
+  ArenaInv (hbranches (flatten b)) /\ small (hbranches (flatten b)).
+Proof.
+  intros b I R. pose proof (flatten_heap_of I R) as HO.
+  destruct (inv_leaves I) as (_ & _ & ND1 & F1). destruct (inv_branches I) as (_ & _ & ND2 & F2).
+  destruct R as [R1 R2]. unfold room in R1, R2. rewrite Nat.add_0_r in R1, R2.
+  split; [|split; [|split]].
+  - split; [|split].
+    + rewrite (ho_llen HO), (ho_lmask HO). reflexivity.
+    + rewrite (ho_lfree HO). exact ND1.
+    + intros i. rewrite (ho_lfree HO), (ho_lmask HO). apply F1.
+  - unfold small. rewrite (ho_llen HO). exact R1.
+  - split; [|split].
+    + rewrite (ho_blen HO), (ho_bmask HO). reflexivity.
+    + rewrite (ho_bfree HO). exact ND2.
+    + intros i. rewrite (ho_bfree HO), (ho_bmask HO). apply F2.
+  - unfold small. rewrite (ho_blen HO). exact R2.
+Qed.
+
+Lemma valid_leaf_cap : forall (b : bstate V) id l, Inv b -> rooms b ->
+  get_leaf (flatten b) id = Some l -> lcap l = cap b.
+Proof.
+  intros b id l I R Hg. pose proof (flatten_heap_of I R) as HO.
+  destruct (ho_leaf_inv HO _ Hg) as (c & ks & vs & nx & -> & Hs).
+  destruct (inv_shape I) as (hh & Sh).
+  destruct (subtree_shape Hs Sh) as (r' & h' & Sl). apply shape_leaf_inv in Sl.
+  cbn [lcap]. tauto.
+Qed.
+
+(* common core: h' has the root of the valid heap h, agrees with it on every allocated
+   node, holds at least as many slots, and has one more allocated node *)
+Lemma orphan_core : forall (b : bstate V) (h' : heap), Inv b -> rooms b ->
+  hroot h' = hroot (flatten b) ->
+  (forall id x, get_branch (flatten b) id = Some x -> get_branch h' id = Some x) ->
+  (forall id l, get_leaf (flatten b) id = Some l -> get_leaf h' id = Some l) ->
+  (forall id l, get_leaf h' id = Some l -> get_leaf (flatten b) id = Some l \/ 2 <= lcap l) ->
+  nslots (flatten b) <= nslots h' ->
+  ((exists id, a_contains (hleaves h') id = true /\ get_leaf (flatten b) id = None) \/
+   (exists id, a_contains (hbranches h') id = true /\ get_branch (flatten b) id = None)) ->
+  check_invariants_detailed h' <> Ok None.
+Proof.
+  intros b h' I R Er Hb Hl Hl' Hn Horph. set (h := flatten b) in *.
+  assert (Ha : forall id ir lo hi, hreach h (RBranch id) ir lo hi -> get_branch h' id = get_branch h id).
+  { intros id ir lo hi Hr. pose proof (valid_hwf I R Hr) as W.
+    inversion W as [|? ? ? ? x Hg _ _ _ _ _]; subst.
+    transitivity (Some x); [apply Hb; exact Hg|symmetry; exact Hg]. }
+  assert (Hd : hdep h (S (nslots h')) (hroot h)).
+  { eapply hdep_mono; [apply valid_hdep; assumption|]. fold h. lia. }
+  destruct (h_leaf_ids_total Hd) as (tids & Et).
+  destruct (h_branch_ids_total Hd) as (bids & Eb).
+  assert (Et' : collect_leaf_ids h' = Ok tids).
+  { unfold collect_leaf_ids, dfuel. rewrite Er.
+    rewrite (@h_leaf_ids_agree h h' Ha _ _ _ _ _ (hreach_root h)). exact Et. }
+  assert (Eb' : collect_branch_ids h' = Ok bids).
+  { unfold collect_branch_ids, dfuel. rewrite Er.
+    rewrite (@h_branch_ids_agree h h' Ha _ _ _ _ _ (hreach_root h)). exact Eb. }
+  assert (Tl : forall id, In id tids -> exists l, get_leaf h id = Some l).
+  { intros id Hin. destruct (h_leaf_ids_reach _ _ Et Hin (hreach_root h)) as (ir & lo & hi & Hr).
+    pose proof (valid_hwf I R Hr) as W. inversion W as [? ? ? ? l Hg _ _ _ _ _|]; subst. eauto. }
+  assert (Tb : forall id, In id bids -> exists x, get_branch h id = Some x).
+  { intros id Hin. destruct (h_branch_ids_reach _ _ Eb Hin (hreach_root h)) as (ir & lo & hi & Hr).
+    pose proof (valid_hwf I R Hr) as W. inversion W as [|? ? ? ? x Hg _ _ _ _ _]; subst. eauto. }
+  apply (@orphan_rejected V h' tids bids Et' Eb').
+  - intros id l Hin Hg. destruct (Hl' _ _ Hg) as [Hg0|Hc]; [|exact Hc].
+    rewrite (@valid_leaf_cap b id l I R Hg0). pose proof (inv_cap I). lia.
+  - destruct Horph as [(id & Hc & Hnone)|(id & Hc & Hnone)].
+    + left. exists id. split; [exact Hc|]. intros Hin. destruct (Tl _ Hin) as (l & E). congruence.
+    + right. exists id. split; [exact Hc|]. intros Hin. destruct (Tb _ Hin) as (x & E). congruence.
+Qed.
+
+Theorem edit_EOrphanLeaf_rejected : forall (b : bstate V), Inv b -> rooms b ->
+  check_invariants_detailed (apply_edit (flatten b) (@EOrphanLeaf V)) <> Ok None.
+Proof.
+  intros b I R. cbn [apply_edit].
+  destruct (valid_arena_inv I R) as (AI & Sm & _ & _).
+  destruct (@allocate_spec _ _ (mkLeaf (hcap (flatten b)) [] [] NULL) AI Sm)
+    as (a' & nid & Ea & Hne & Hold & Hnew & Hoth & _ & _ & _ & Hlen).
+  rewrite Ea. set (h := flatten b) in *.
+  apply (@orphan_core b (mkHeap (hcap h) (hroot h) a' (hbranches h)) I R).
+  - reflexivity.
+  - intros id x Hg. exact Hg.
+  - intros id l Hg. unfold get_leaf. cbn [hleaves]. rewrite Hoth; [exact Hg|].
+    intros ->. unfold get_leaf in Hg. fold h in Hg. congruence.
+  - intros id l Hg. unfold get_leaf in Hg. cbn [hleaves] in Hg.
+    destruct (N.eq_dec id nid) as [->|Hd].
+    + rewrite Hnew in Hg. inversion Hg; subst l. right. cbn [lcap]. change (hcap h) with (cap b).
+      pose proof (inv_cap I). lia.
+    + left. rewrite Hoth in Hg by exact Hd. exact Hg.
+  - unfold nslots. cbn [hleaves hbranches]. rewrite Hlen. subst h. destruct (free (hleaves (flatten b))); lia.
+  - left. exists nid. split; [|exact Hold]. cbn [hleaves]. eapply a_get_contains. exact Hnew.
+Qed.
+
+Theorem edit_EOrphanBranch_rejected : forall (b : bstate V), Inv b -> rooms b ->
+  check_invariants_detailed (apply_edit (flatten b) (@EOrphanBranch V)) <> Ok None.
+Proof.
+  intros b I R. cbn [apply_edit].
+  destruct (valid_arena_inv I R) as (_ & _ & AI & Sm).
+  destruct (@allocate_spec _ _ (mkBranch (hcap (flatten b)) [] []) AI Sm)
+    as (a' & nid & Ea & Hne & Hold & Hnew & Hoth & _ & _ & _ & Hlen).
+  rewrite Ea. set (h := flatten b) in *.
+  apply (@orphan_core b (mkHeap (hcap h) (hroot h) (hleaves h) a') I R).
+  - reflexivity.
+  - intros id x Hg. unfold get_branch. cbn [hbranches]. rewrite Hoth; [exact Hg|].
+    intros ->. unfold get_branch in Hg. fold h in Hg. congruence.
+  - intros id l Hg. exact Hg.
+  - intros id l Hg. left. exact Hg.
+  - unfold nslots. cbn [hleaves hbranches]. rewrite Hlen. subst h. destruct (free (hbranches (flatten b))); lia.
+  - right. exists nid. split; [|exact Hold]. cbn [hbranches]. eapply a_get_contains. exact Hnew.
+Qed.
+
 End DamageOps.
+
+(* ------------------------------------------------------------------ *)
+(* 7. non-vacuity: a reachable 3-level map (capacity 4, keys 1..20); for every class of
+   damage a concrete edit satisfies [damaging], hence is rejected by the theorem *)
+Module DamageOpsExamples.
+
+Definition ex_ops : list (op Z) :=
+  map (fun n => OInsert (mkKey (Z.of_nat n) 0%N) (Z.of_nat n)) (seq 1 20).
+
+Definition ex_b : bstate Z := Eval vm_compute in
+  match state_after 4 ex_ops with
+  | Some b => b
+  | None => mkB 0 (PLeaf 0%N 0 [] [] 0%N) (mkMeta [] []) (mkMeta [] [])
+  end.
+
+Lemma ex_b_reached : state_after 4 ex_ops = Some ex_b.
+Proof. vm_compute. reflexivity. Qed.
+
+Lemma ex_b_valid : Inv ex_b /\ rooms ex_b.
+Proof.
+  destruct (@reachable_state Z 4 ex_ops) as (b & E & I & R & _).
+  - lia.
+  - vm_compute. reflexivity.
+  - rewrite ex_b_reached in E. inversion E; subst b. split; assumption.
+Qed.
+
+Example ex_three_levels : height (root ex_b) = 2.
+Proof. vm_compute. reflexivity. Qed.
+
+Example ex_positions :
+  collect_leaf_ids (flatten ex_b) = Ok [0; 1; 2; 3; 4; 5; 6; 7; 8]%N /\
+  collect_branch_ids (flatten ex_b) = Ok [2; 0; 1; 3]%N.
+Proof. vm_compute. split; reflexivity. Qed.
+
+Ltac by_vm := vm_compute; reflexivity.
+
+(* the interval [3, 5) handed to leaf 1 (second child of branch 0, first child of root 2) *)
+Lemma ex_reach_leaf1 : hreach (flatten ex_b) (RLeaf 1%N) false (Some 3%Z) (Some 5%Z).
+Proof.
+  pose (x2 := mkBranch 4 [mkKey 7 0%N; mkKey 13 0%N] [RBranch 0%N; RBranch 1%N; RBranch 3%N]).
+  pose (x0 := mkBranch 4 [mkKey 3 0%N; mkKey 5 0%N] [RLeaf 0%N; RLeaf 1%N; RLeaf 2%N]).
+  assert (G2 : get_branch (flatten ex_b) 2%N = Some x2) by by_vm.
+  assert (G0 : get_branch (flatten ex_b) 0%N = Some x0) by by_vm.
+  assert (H0 : hreach (flatten ex_b) (RBranch 0%N) false None (Some 7%Z)).
+  { exact (@hreach_child Z (flatten ex_b) 2%N x2 true None None 0 (RBranch 0%N)
+             (hreach_root (flatten ex_b)) G2 eq_refl). }
+  exact (@hreach_child Z (flatten ex_b) 0%N x0 false None (Some 7%Z) 1 (RLeaf 1%N) H0 G0 eq_refl).
+Qed.
+
+(* keys unsorted *)
+Example ex_dmg_leaf_key_unsorted : damaging ex_b (@ELeafKey Z 1 0 1000).
+Proof.
+  eapply dmg_leaf_key; [by_vm|by_vm|].
+  left. cbn [lkeys]. eapply DO_set_kz_order with (j := 1); [reflexivity|reflexivity|].
+  right. split; [lia|]. cbn [kz]. lia.
+Qed.
+
+(* key outside the interval allowed by the parent's separators (the leaf stays sorted) *)
+Example ex_dmg_leaf_key_interval : damaging ex_b (@ELeafKey Z 1 1 100).
+Proof.
+  eapply dmg_leaf_key; [by_vm|by_vm|].
+  right. exists false, (Some 3%Z), (Some 5%Z). split; [exact ex_reach_leaf1|].
+  cbn [lkeys]. eapply DO_set_kz_bounds; [reflexivity|]. cbn [lo_ok hi_ok]. lia.
+Qed.
+
+(* duplicated keys *)
+Example ex_dmg_leaf_key_copy : damaging ex_b (@ELeafKeyCopy Z 1 0 1).
+Proof. eapply dmg_leaf_key_copy; [by_vm|by_vm|lia|cbn; lia|cbn; lia]. Qed.
+
+Example ex_dmg_leaf_last_key : damaging ex_b (@ELeafLastKey Z 8 17).
+Proof.
+  eapply dmg_leaf_last_key; [by_vm|by_vm|].
+  left. cbn [lkeys length Nat.sub]. eapply DO_set_kz_order with (j := 0); [reflexivity|reflexivity|].
+  left. split; [lia|]. cbn [kz]. lia.
+Qed.
+
+(* key and value counts differ *)
+Example ex_dmg_leaf_pop_val : damaging ex_b (@ELeafPopVal Z 0).
+Proof. eapply dmg_leaf_pop_val; [by_vm|by_vm|cbn; discriminate]. Qed.
+
+Example ex_dmg_leaf_pop_key : damaging ex_b (@ELeafPopKey Z 4).
+Proof. eapply dmg_leaf_pop_key; [by_vm|by_vm|cbn; discriminate]. Qed.
+
+Example ex_dmg_leaf_push_key : damaging ex_b (@ELeafPushKey Z 0 (mkKey 100 0%N)).
+Proof. eapply dmg_leaf_push_key. by_vm. Qed.
+
+Example ex_dmg_leaf_push_val : damaging ex_b (@ELeafPushVal Z 0 100%Z).
+Proof. eapply dmg_leaf_push_val. by_vm. Qed.
+
+(* above capacity: leaf 8 already holds cap = 4 keys *)
+Example ex_dmg_leaf_push_full : damaging ex_b (@ELeafPush Z 8 (mkKey 21 0%N) 21%Z).
+Proof. eapply dmg_leaf_push; [by_vm|by_vm|]. left. cbn. lia. Qed.
+
+(* pushed key breaks the order *)
+Example ex_dmg_leaf_push_order : damaging ex_b (@ELeafPush Z 0 (mkKey 2 0%N) 2%Z).
+Proof.
+  eapply dmg_leaf_push; [by_vm|by_vm|]. right. left. eexists. split; [by_vm|]. cbn [kz]. lia.
+Qed.
+
+(* non-root leaf below minimum occupancy *)
+Example ex_dmg_leaf_trunc : damaging ex_b (@ELeafTrunc Z 1 1).
+Proof. eapply dmg_leaf_trunc; [by_vm|by_vm|cbn; discriminate|cbn; lia]. Qed.
+
+(* branches: unsorted, duplicated, below minimum, child count, above capacity *)
+Example ex_dmg_branch_key : damaging ex_b (@EBranchKey Z 1 0 1000).
+Proof.
+  eapply dmg_branch_key; [by_vm|by_vm|].
+  cbn [bkeys]. eapply DO_set_kz_order with (j := 1); [reflexivity|reflexivity|].
+  right. split; [lia|]. cbn [kz]. lia.
+Qed.
+
+Example ex_dmg_branch_key_copy : damaging ex_b (@EBranchKeyCopy Z 0 0 1).
+Proof. eapply dmg_branch_key_copy; [by_vm|by_vm|lia|cbn; lia|cbn; lia]. Qed.
+
+Example ex_dmg_branch_trunc : damaging ex_b (@EBranchTrunc Z 1 1).
+Proof. eapply dmg_branch_trunc; [by_vm|by_vm|cbn; discriminate|cbn; lia]. Qed.
+
+Example ex_dmg_branch_pop_child : damaging ex_b (@EBranchPopChild Z 0).
+Proof. eapply dmg_branch_pop_child. by_vm. Qed.
+
+Example ex_dmg_branch_dup_child : damaging ex_b (@EBranchDupChild Z 2).
+Proof. eapply dmg_branch_dup_child. by_vm. Qed.
+
+Example ex_dmg_branch_push : damaging ex_b (@EBranchPush Z 1 (mkKey 4 0%N)).
+Proof.
+  eapply dmg_branch_push; [by_vm|by_vm|]. right. eexists. split; [by_vm|]. cbn [kz]. lia.
+Qed.
+
+(* references to nodes that are not allocated *)
+Example ex_dmg_branch_ref_leaf : damaging ex_b (@EBranchRef Z 1 0 77%N).
+Proof. eapply dmg_branch_ref; [by_vm|by_vm|by_vm|by_vm]. Qed.
+
+Example ex_dmg_branch_ref_branch : damaging ex_b (@EBranchRef Z 0 1 77%N).
+Proof. eapply dmg_branch_ref; [by_vm|by_vm|by_vm|by_vm]. Qed.
+
+Example ex_dmg_root_leaf : damaging ex_b (@ERoot Z true 99%N).
+Proof. apply dmg_root. by_vm. Qed.
+
+Example ex_dmg_root_branch : damaging ex_b (@ERoot Z false NULL).
+Proof. apply dmg_root. by_vm. Qed.
+
+Example ex_dmg_free_leaf : damaging ex_b (@EFreeLeaf Z 2).
+Proof. eapply dmg_free_leaf. by_vm. Qed.
+
+Example ex_dmg_free_branch : damaging ex_b (@EFreeBranch Z 1).
+Proof. eapply dmg_free_branch. by_vm. Qed.
+
+(* hence, by the theorem (not by computation), each of them is rejected *)
+Example ex_theorem_applies :
+  rejected (apply_edit (flatten ex_b) (@ELeafKey Z 1 1 100)) /\
+  rejected (apply_edit (flatten ex_b) (@EBranchRef Z 0 1 77%N)) /\
+  rejected (apply_edit (flatten ex_b) (@EFreeBranch Z 1)).
+Proof.
+  destruct ex_b_valid as [I R].
+  split; [|split]; apply damage_operators_rejected_full; try assumption.
+  - exact ex_dmg_leaf_key_interval.
+  - exact ex_dmg_branch_ref_branch.
+  - exact ex_dmg_free_branch.
+Qed.
+
+(* orphans: rejected by the detailed validator, by theorem *)
+Example ex_orphans_rejected :
+  check_invariants_detailed (apply_edit (flatten ex_b) (@EOrphanLeaf Z)) <> Ok None /\
+  check_invariants_detailed (apply_edit (flatten ex_b) (@EOrphanBranch Z)) <> Ok None.
+Proof.
+  destruct ex_b_valid as [I R].
+  split; [apply edit_EOrphanLeaf_rejected|apply edit_EOrphanBranch_rejected]; assumption.
+Qed.
+
+(* and the transcribed validators, run on the edited heaps, agree *)
+Example ex_computed :
+  map (fun e => check_invariants (apply_edit (flatten ex_b) e))
+    [@ELeafKey Z 1 1 100; @ELeafKeyCopy Z 1 0 1; @ELeafPush Z 8 (mkKey 21 0%N) 21%Z;
+     @EBranchTrunc Z 1 1; @EBranchRef Z 0 1 77%N; @ERoot Z false NULL; @EFreeBranch Z 1]
+  = repeat (Ok false) 7.
+Proof. vm_compute. reflexivity. Qed.
+
+End DamageOpsExamples.
+
+Print Assumptions leaf_damage.
+Print Assumptions branch_damage.
+Print Assumptions branch_damage_weak.
+Print Assumptions dangling_ref_damage.
+Print Assumptions dangling_child_damage.
+Print Assumptions dangling_root_damage.
+Print Assumptions damage_operators_rejected_full.
+Print Assumptions damage_operators_rejected.
+Print Assumptions damage_operators_refused.
+Print Assumptions edit_EOrphanLeaf_rejected.
+Print Assumptions edit_EOrphanBranch_rejected.
+Print Assumptions DamageOpsExamples.ex_theorem_applies.
